@@ -20,9 +20,20 @@ PATH_CALL_ERRNOS = ("EIO", "EACCES", "ENOENT")
 FILE_OBJECT_ERRNOS = ("EIO", "ENOSPC")  # write / close
 
 
+INTERRUPTS = ("KeyboardInterrupt", "SystemExit")  # BaseExceptions that are not Exceptions
+
+
 def fault_variants(role):
     errs = FILE_OBJECT_ERRNOS if role in ("write", "close") else PATH_CALL_ERRNOS
     return [f"{e}:{rep}" for e in errs for rep in ("once", "persist")]
+
+
+def interrupt_variants(role):
+    return [f"{i}:once" for i in INTERRUPTS]
+
+
+def is_interrupt(variant):
+    return bool(variant) and variant.split(":")[0] in INTERRUPTS
 
 
 def snapshot_dir(root: Path):
